@@ -4,10 +4,12 @@ from __future__ import annotations
 from .tags import name_of
 
 
-def payload_fp(payload):
+def payload_fp(payload, _stack=()):
     """Content of a payload: rows for iteration payloads; FROM text, WHERE list and available keys for SQL payloads."""
     if payload is None:
         return None
+    if id(payload) in _stack:  # a lazy chain that (after a faulty in-place extension) contains itself
+        return ("cycle", len(_stack))
     try:
         from lsst.daf.relation import iteration, sql
 
@@ -22,6 +24,9 @@ def payload_fp(payload):
             return ("map", tuple(tuple(sorted((name_of(k), v) for k, v in r.items())) for r in payload.rows.values()))
         if isinstance(payload, iteration.RowSequence):
             return ("seq", tuple(tuple(sorted((name_of(k), v) for k, v in r.items())) for r in payload.rows))
+        if isinstance(payload, iteration.ChainRowIterable):
+            # a lazy stored payload: its operand list is content (an evaluation must not extend or reorder it)
+            return ("lazy-chain", tuple(payload_fp(part, _stack + (id(payload),)) for part in list(payload.chain)[:64]), len(payload.chain))
         if hasattr(payload, "_rows"):
             return ("custom", tuple(tuple(sorted((name_of(k), v) for k, v in r.items())) for r in payload._rows))
     except Exception as e:  # pragma: no cover
